@@ -7,55 +7,55 @@ CHECKS = {
          "Held on the executions explored: every unary wrapper over every inner view, every combinator over every pair, PFE/EFT in both slots, random triples and random trees with Probe leaves, three scalars. Exploration is the right level: the property is a relation between observable executions of the real code and the space (views x views x N x inputs) is sampled, not enumerable.",
          "harness Dyn/Script/Probe/Tap views; release profile; trials cut at the first non-finite inner output"),
  "C02": ("reference-model monitor: batch definitions over the last min(t,N) values evaluated from the recorded history in exact rational arithmetic; real code run at the exact scalar (equality at every step) and at f64 (a-priori rounding envelope)",
-         "Held on the executions explored: 10 views x N grid x 18 input classes (ties, zeros, negatives, spikes entering/leaving, evictions of the current extremum, flat windows, zero bases - counted by the oracle) at both scalars, incl. the mean()/variance() getters, plus long-history trials (2600-6000 values, windows up to 250).",
+         "Held on the executions explored: 10 views x N grid x 18 input classes (ties, zeros, negatives, spikes entering/leaving, evictions of the current extremum, flat windows, zero bases - counted by the oracle) at both scalars, incl. the mean()/variance() getters, plus long-history trials (2600-9000 values, windows up to 250) and, at f64, histories of 66 000-135 000 values compared at every 997th step, around the 65 536th / 131 072nd value and at the end.",
          "sample std of one value = 0; f64 Vst/Vsct steps with std inside the rounding envelope are left to C16"),
  "C03": ("relational monitor: two instances fed different prefixes (0..20N values, up to 2^40 x larger) and a common suffix; outputs compared from the K-th suffix value on, exactly at the exact scalar, within the envelope at f64",
-         "Held on the executions explored: all 17 listed views x N grid x 6 prefix styles (lengths up to 4200 values) x 4 suffix classes.",
+         "Held on the executions explored: all 17 listed views x N grid x 6 prefix styles (lengths up to 4200 values; at the exact scalar cut to what 1.5 million exact operations pay for) x 4 suffix classes.",
          "documented hold steps (MyRSI flat window, Roc zero base) are identified by the exact oracle and skipped"),
  "C04": ("clause monitors (interval, constant, monotone, affine, defining recursion / kernel) on Sma, Ema, Alma at the exact scalar (exact inequalities and equalities) and at f64 (envelope)",
-         "Held on the executions explored: default and custom alpha / sigma / offset, N grid, input classes with exact zeros and sign changes; the views sit over a Script inner view that delivers nothing for 0-3 updates while the raw inputs are unrelated noise.",
+         "Held on the executions explored: default and custom alpha / sigma (2..16) / offset (0..1), N grid, input classes with exact zeros and sign changes; the views sit over a Script inner view that delivers nothing for 0-3 updates while the raw inputs are unrelated noise.",
          "Alma: both weight-assignment readings the statements admit are accepted"),
  "C05": ("reference-model monitor: gains/losses over the N most recent values from the recorded history in exact arithmetic; equality at the exact scalar, negation relation, conditioning-aware tolerance at f64",
-         "Held on the executions explored: Rsi and MyRSI x N grid x 12 input classes.",
+         "Held on the executions explored: Rsi and MyRSI x N grid (plus 100, 257, 300, 520) x 12 input classes, one f64 trial in six in subnormal units.",
          "no claim where MyRSI has nothing to hold; f64 steps with G+L inside the rounding envelope are left to C07/C16"),
  "C06": ("reference-model monitor: Pearson / Kendall tau-a / centre-of-gravity of the current window from the recorded history in exact arithmetic; negation and order-only (strictly increasing maps) relations",
-         "Held on the executions explored: CTI, NET, CoG x N 3..64 x 12 input classes + partially shuffled streams.",
+         "Held on the executions explored: CTI, NET, CoG x N 3..64 x 12 input classes + partially shuffled streams, one f64 trial in six in units of 2^-70 / 2^-300.",
          "CTI at the exact scalar compared to 1e-12 (irrational root); f64 steps inside the cancellation envelope left to C07/C16"),
  "C07": ("range automaton on every Some output (f64 and f32; 16 ulps of the bound), Min/Max sandwich with real Min/Max views, Drawdown monotonicity; violations classified by the exact oracle on the failing window (predicates of the known findings)",
          "Held on the executions explored except for five recorded known findings (PFE's defining formula, Vsct residue, Sma/Alma running-sum residue, CoG's N-ulp excess): 16 documented ranges + sandwich + Drawdown x N 2..64 (+257) x 14 adversarial input classes, a quarter rescaled over 2^60, a third off the dyadic grid, streams to 1e5.",
          "'a few ulps' = 16 ulps of the bound; known findings are matched on (view, clause, exact-oracle predicate)"),
- "C08": ("readiness automaton per node (Taps on every node of single views and chains) + documented warm-up table + Script children that deliver nothing; dev and release profiles, three scalars",
+ "C08": ("readiness automaton per node (Taps on every node of single views and chains) + documented warm-up table (counted in delivered values, also over an inner view that starts delivering late) + Script children that deliver nothing; dev and release profiles, three scalars",
          "Held on the executions explored: every view x N grid x degenerate input classes, chains, long runs (1e4 quick / 1e6 thorough updates). 'For ever' is restated as no relapse and no non-finite value within those run lengths; no finite run decides the unbounded claim.",
          "a node is only judged while its own inputs stayed finite, in domain and below 2^40; a panic of the code under test ends the trial (C15 reports it)"),
  "C09": ("bounded-input stress runs against a length-independent bound derived from the reference model (finite, inside the bound, no growth from the first 4L to 16L updates) and a two-instance fading-memory relation (different prefixes, common tail, agreement to 1e-6 from the reference settle length on)",
          "Held on the executions explored: nine recursive views, all N 1..9 and a grid to 64 (+100, 1000), inputs incl. square waves through the resonance region; runs of L/4L/16L with L = 1e4 (quick) / 2e5 (thorough). Bounded restatement of an unbounded-time claim: no finite run decides 'however long'.",
          "bounds are sound but loose (forcing x l1 bound of the recursion): they catch instability and growth, not gain errors (C11 owns those)"),
  "C10": ("relational monitor over three executions x, y, a x + b y (exact scalar: equality; f64: envelope), incl. streams constructed so that the combined input/state is exactly 0; constant-input clauses with the reference settle length",
-         "Held on the executions explored: eight linear views x parameter grids x N grid, a, b incl. 0 and negatives.",
+         "Held on the executions explored: eight linear views x parameter grids (Ema weights up to 1.25) x N grid, a, b incl. 0, negatives and 2^+-60, x streams that hover and jump by 1e8 times their recent range.",
          "second-order filters at the exact scalar limited to 100 steps"),
- "C11": ("reference-model monitor: batch re-evaluation of the difference equations (closed-form coefficients from the statement) from the complete input history, compared after every update at f64 (long streams) and at the exact scalar (short streams; hold branches exact), tolerance 1e-4 of natural scale",
-         "Held on the executions explored: nine views x N from each minimum to 64 + {200, 1000} x gamma / smoother-length / MA grids x 10 input classes.",
+ "C11": ("reference-model monitor: batch re-evaluation of the difference equations (closed-form coefficients from the statement) from the complete input history, compared after every update at f64 (long streams, a quarter in units of 2^10 / 2^20) and at the exact scalar (short streams; hold branches exact), tolerance 1e-9 of natural scale (2e-5 for SuperSmoother / RoofingFilter, whose source spells 1.414 pi as 4.4422)",
+         "Held on the executions explored: nine views x N from each minimum to 64 + {200, 1000} x gamma (0 .. 511/512) / smoother-length / MA grids x 10 input classes.",
          "crate conventions as named in the statement; 1.414 pi == 4.4422; f64 ratio steps with the reference denominator in rounding noise are skipped (counted)"),
- "C12": ("relational monitor over two executions x and a x + b / a x / -x for 37 (view, relation) pairs: exact scalar with arbitrary rational a, b (equality), f64 with a = 2^k for k from -60 to 60 and dyadic b (bit identity), f64 general (tolerance on well-conditioned windows)",
-         "Held on the executions explored: all views of the statement's three lists x N grid x 8 input classes with ties.",
+ "C12": ("relational monitor over two executions x and a x + b / a x / -x for 37 (view, relation) pairs: exact scalar with arbitrary rational a, b (equality), f64 with a = 2^k for k from -200 to 200 and dyadic b up to 2^40 (bit identity; a fifth of those trials at a level of 2^30 / 2^34), f64 general (tolerance on well-conditioned windows)",
+         "Held on the executions explored except for one recorded known finding (Vst at a level 1e9 times the spread, through WelfordOnline's m2 residue): all views of the statement's three lists x N grid x 8 input classes with ties.",
          "flat windows exempt only for Vst (returns the value) and Rsi under negation (returns 100)"),
  "C13": ("reference-model monitor: exact integer-scaled running sums (i128), running peak and largest relative decline, ln ratio; exact scalar (equality) and f64 at every step of streams of L, 4L, 16L values with one tolerance",
-         "Held on the executions explored: three views x seven stream shapes (new peaks after deeper troughs, equal peaks, monotone, flats, three decades), 16L ~ 1e5 (quick) / 1e7 (thorough).",
+         "Held on the executions explored: three views x eight stream shapes (new peaks after deeper troughs, equal peaks, monotone, flats, three decades, a high level with a small spread), 16L ~ 3e5 (quick) / 1e7 (thorough), two streams beyond 2^24 values; f64 tolerance 1e-11 of scale (noise observed: 6e-14).",
          "positive inputs k/64 in [1,1000]"),
  "C14": ("pointwise oracle over Script children (outputs dictated), bit-exact comparison after every update; two-history statelessness relation",
          "Held on the executions explored (all nine combinators x f64/f32/exact rational x seeded script pairs incl. zeros, -0, clip ties, denormals, None prefixes).",
          "children never relapse to None; libm tanh of the harness build is the one the crate reaches"),
  "C15": ("panic trap (catch_unwind + recording panic hook) around construction and every update()/last(), executed under rustc's run-time instrumentation (dev profile: debug assertions + overflow checks) and in the release profile",
          "Held on the executions explored: every view x full secondary-parameter grid x N (1..64 in thorough) x 18 input classes x stream lengths shorter than / about / far beyond the window, two-level chains with in-domain inner outputs, f64 and f32.",
-         "constructor panics count as 'constructor rejects N'; inputs bounded by 2^20; one known finding (Alma at f32 with an underflowing first kernel weight)"),
- "C16": ("f64 (and f32) executions compared with exact arithmetic: exact batch oracle over the recent inputs for windowed views, fresh-restart f64 instance on the last S(N) inputs for recursive views; drift clause on long three-decade streams at 200+ checkpoints, flat clause after volatile prefixes",
-         "Held on the executions explored except for the recorded Vst/Vsct known findings: 25 views x N grid, streams of 1e5 (quick) / 1e6 (thorough) values, dyadic and non-dyadic grids, flat values incl. 0.1 and 1/3.",
+         "constructor panics count as 'constructor rejects N'; inputs bounded by 2^20; Ema weights up to 1.5; one known finding (Alma at f32 with an underflowing first kernel weight)"),
+ "C16": ("f64 (and f32) executions compared with exact arithmetic: exact batch oracle over the recent inputs for windowed views, the C11 reference model restarted on the last S(N) inputs for recursive ones; drift clause on long three-decade streams at 200+ checkpoints (every step around the 65 536th / 131 072nd value; every step at f32 for windows up to 16), flat clause after volatile prefixes",
+         "Held on the executions explored except for the recorded known findings (Vst / Vsct and - at f32 - WelfordOnline through the running m2's residue, PFE over a Sma, LaguerreRSI's conditioning at f32): 25 views + PFE / EFT over three smoothers x N grid (and 300 / 400 / 520 on 1e6 values), three-decade streams of 1e5 (quick) / 1e6 (thorough) values of three shapes (walk, climb-then-hover, sweep-and-hover), dyadic and non-dyadic grids, f32 in both tiers, flat values incl. 0.1, 1/3 and 0 after three-decade, high-level / small-spread and 2^50-scaled prefixes.",
          "natural scale per output class as stated in the evidence; WelfordRolling's drift is decided by C13"),
  "C17": ("relational runtime monitor: twin instances, extra and omitted last() calls, clones (also taken during warm-up) with divergent continuations, twin on another thread; bit identity",
          "Held on the executions explored: all views and random chains, random clone points, three interleavings of original and clone.",
          "Add has no Clone (clone clause vacuous there); release profile"),
  "C18": ("resource meter: counting global allocator in the harness, live bytes owned by the instance sampled after L, 4L, 16L updates",
-         "Held on the executions explored: every view x N grid, PFE/EFT with each MA, random chains, seven input modes (noise, constant, ties, flat stretches, saw-tooth, rising and falling ramps); bytes(4L) <= bytes(L) and bytes(16L) <= bytes(L) as exact integer comparisons (16L up to 4e6 in thorough). Restates 'bound independent of length'; a growth slower than one capacity doubling per 16x length would escape.",
+         "Held on the executions explored: every view x N grid, PFE/EFT with each MA, random chains (a third with a component that never becomes ready), nine input modes (noise, constant, ties, flat stretches, saw-tooth, rising and falling ramps, random walk at a high level, noisy up-trend); bytes(4L) <= bytes(L) and bytes(16L) <= bytes(L) as exact integer comparisons (16L up to 4e6 in thorough). Restates 'bound independent of length'; a growth slower than one capacity doubling per 16x length would escape.",
          "f64, release profile; bytes requested on the driving thread"),
 }
 DESIGN_REF = {k: "DESIGN.md section 3, " + k for k in CHECKS}
